@@ -432,13 +432,20 @@ class Webs(object):
         self.run()
         web_names = {}
         counters = {}
+        # a name all of whose occurrences belong to one web needs no new name (keeps the renaming idempotent)
+        used_webs = {}
+        for holder, d in self.occ:
+            used_webs.setdefault(self.name_of[d], set()).add(self.uf.find(d))
+        for n in self.captured_uses:
+            pass
+        single = {nm for nm, ws in used_webs.items() if len(ws) == 1}
         # deterministic: webs numbered by the smallest definition id they contain
         for d in sorted(self.name_of):
             r = self.uf.find(d)
             nm = self.name_of[d]
             if r in web_names:
                 continue
-            if r == self.uf.find(self.entry[nm]):
+            if r == self.uf.find(self.entry[nm]) or nm in single:
                 web_names[r] = nm
             else:
                 counters[nm] = counters.get(nm, 0) + 1
